@@ -148,6 +148,23 @@ func newKeyCodec(kt string, nk int, bf uint, rng *rand.Rand, userLayers []int, m
 	case "int", "int64", "uint", "uint64":
 		signed := kt == "int" || kt == "int64"
 		set := map[int64]bool{}
+		// sometimes a "spike": one or two keys two or three layers up and every other key in the bottom layer, so that inserting
+		// or deleting a spike key changes the height by more than one level at once
+		if rng.Intn(6) == 0 {
+			for n := 1 + rng.Intn(2); n > 0; n-- {
+				v := int64(bf) * int64(bf)
+				if rng.Intn(2) == 0 {
+					v *= int64(bf)
+				}
+				set[v*int64(1+rng.Intn(int(bf)-1+1))] = true
+			}
+			for len(set) < nk {
+				v := int64(1 + rng.Intn(200))
+				if v%int64(bf) != 0 {
+					set[v] = true
+				}
+			}
+		}
 		for len(set) < nk {
 			var v int64
 			switch rng.Intn(7) {
@@ -271,10 +288,18 @@ func newKeyCodec(kt string, nk int, bf uint, rng *rand.Rand, userLayers []int, m
 			c.zero = SK{}
 		}
 	case "userkey":
+		spike := -1
+		if userLayers == nil && maxLayer >= 2 && rng.Intn(6) == 0 {
+			spike = rng.Intn(nk) // see above
+		}
 		for i := 0; i < nk; i++ {
 			l := 0
 			if userLayers != nil {
 				l = userLayers[i]
+			} else if spike >= 0 {
+				if i == spike || (i == (spike+3)%nk && rng.Intn(2) == 0) {
+					l = 2 + rng.Intn(maxLayer-1)
+				}
 			} else {
 				l = []int{0, 0, 0, 1, 1, 2, 3}[rng.Intn(7)]
 				if l > maxLayer {
